@@ -368,7 +368,9 @@ class SymReal(object):
             return True
         return self._cmp("!=", o)
 
-    __hash__ = object.__hash__
+    def __hash__(self):
+        # structural: two computations of the same expression are the same value (dict keys, tabling)
+        return hash((self.e.hash(), 0 if self.den is None else self.den.hash()))
 
     def __float__(self):
         raise Unsupported("float() of a symbolic real")
